@@ -274,6 +274,80 @@ fn job_paginate(j: &J) -> J {
     }
 }
 
+fn bloom_make(j: &J) -> Result<inputlayer::bloom_filter::BloomFilter, String> {
+    use inputlayer::bloom_filter::BloomFilter;
+    let ctor = j["ctor"].as_str().unwrap_or("with_params").to_string();
+    let m = j["m"].as_u64().unwrap_or(64) as usize;
+    let k = j["k"].as_u64().unwrap_or(1) as usize;
+    let n = j["n"].as_u64().unwrap_or(1) as usize;
+    let p = j["p"].as_f64().unwrap_or(0.01);
+    if m > (1usize << 26) || n > (1usize << 22) {
+        return Err("shape too large for native replay".into());
+    }
+    std::panic::catch_unwind(move || if ctor == "new" { BloomFilter::new(n, p) } else { BloomFilter::with_params(m, k) })
+        .map_err(|_| "constructor panicked".to_string())
+}
+
+/// Real BloomFilter: shape, hash pairs, bit indices, bit array, membership; or a search for a failing key.
+fn job_bloom(j: &J) -> J {
+    use std::panic::{catch_unwind, AssertUnwindSafe};
+    let mut f = match bloom_make(j) {
+        Ok(f) => f,
+        Err(e) => return json!({"ok": false, "error": e}),
+    };
+    if let Some(nsearch) = j["search"].as_u64() {
+        // replay aid: look for a key that the real filter loses (or that panics) under three short histories
+        for key in 0..nsearch {
+            for hist in 0..3u32 {
+                let mut g = match bloom_make(j) {
+                    Ok(g) => g,
+                    Err(e) => return json!({"ok": false, "error": e}),
+                };
+                let r = catch_unwind(AssertUnwindSafe(|| {
+                    g.insert(&key);
+                    if hist == 1 {
+                        for o in 1..4u64 {
+                            g.insert(&(key.wrapping_mul(7919).wrapping_add(o)));
+                        }
+                    }
+                    if hist == 2 {
+                        g.clear();
+                        g.insert(&key);
+                    }
+                    g.might_contain(&key)
+                }));
+                match r {
+                    Ok(true) => {}
+                    Ok(false) => return json!({"ok": true, "fail_key": key, "history": hist, "kind": "false-negative"}),
+                    Err(_) => return json!({"ok": true, "fail_key": key, "history": hist, "kind": "panic"}),
+                }
+            }
+        }
+        return json!({"ok": true, "fail_key": J::Null});
+    }
+    let keys: Vec<u64> = j["keys"].as_array().map(|a| a.iter().filter_map(|x| x.as_u64()).collect()).unwrap_or_default();
+    let k = f.num_hashes();
+    let mut per_key = vec![];
+    for key in &keys {
+        let (h1, h2) = f.verif_hash_pair(key);
+        let idx: Vec<u64> = (0..k).map(|i| f.verif_get_bit_index(h1, h2, i) as u64).collect();
+        per_key.push(json!({"key": key, "h1": h1, "h2": h2, "idx": idx}));
+    }
+    let r = catch_unwind(AssertUnwindSafe(|| {
+        for key in &keys {
+            f.insert(key);
+        }
+    }));
+    if r.is_err() {
+        return json!({"ok": true, "panic": true});
+    }
+    let words = f.verif_bits().len();
+    let bits: Vec<u64> = if words <= 64 { f.verif_bits().to_vec() } else { vec![] };
+    let contains: Vec<bool> = keys.iter().map(|x| f.might_contain(x)).collect();
+    json!({"ok": true, "num_bits": f.num_bits() as u64, "num_hashes": k as u64, "words": words as u64, "len": f.len() as u64,
+           "keys": per_key, "bits": bits, "contains": contains})
+}
+
 fn job_exec_ir(j: &J) -> J {
     let ir = match ir_from_json(&j["ir"]) {
         Ok(i) => i,
@@ -318,6 +392,7 @@ fn main() {
                         "exec_ir" => job_exec_ir(&j),
                         "share_all" => job_share_all(&j),
                         "paginate" => job_paginate(&j),
+                        "bloom" => job_bloom(&j),
                         "contains_join" => match ir_from_json(&j["ir"]) {
                             Ok(i) => json!({"ok": true, "contains_join": CodeGenerator::verif_contains_join(&i)}),
                             Err(e) => json!({"ok": false, "error": e}),
